@@ -16,11 +16,34 @@ from sa.consir import Expr, N
 from sa.lameval import Ctx, LamEval
 
 
+def _rich_first(k):
+    """order of kinds: the base object takes the richest kind of every position (structs, then lists, scalars, None last)"""
+    return ({"node": 0, "list": 1}.get(k[0], 3 if k[0] == "none" else 2), repr(k))
+
+
 class Gen:
     def __init__(self, T, M, mod):
         self.T, self.M, self.mod = T, M, mod
         self.le = LamEval(M)
         self.n = 0
+        import ast as _ast
+        import re as _re
+        lits = []
+        for n_ in _ast.walk(M.mods[mod]):
+            if isinstance(n_, _ast.Constant) and isinstance(n_.value, str) and _re.fullmatch(r"\d{1,3}(\.\d{1,3}){5}", n_.value) and n_.value not in lits:
+                lits.append(n_.value)
+        # the codes of the non-register fields of the common name table (clock, meter id / type, list version): normalisers treat them specially
+        try:
+            nm = self.le.module_env("obis_map").get("obis_name_map")
+            if isinstance(nm, dict):
+                for cde, name in nm.items():
+                    if isinstance(name, str) and any(t_ in name for t_ in ("datetime", "meter_type", "meter_id", "list_ver")):
+                        code = f"0.0.{cde}.255"
+                        if code not in lits:
+                            lits.insert(0, code)
+        except Exception:  # noqa
+            pass
+        self.literals = lits[:10]
 
     def scalar(self, kind):
         self.n += 1
@@ -49,7 +72,7 @@ class Gen:
                     return v, []
             except Exception:
                 pass
-        kinds = sorted(self.T.result(m), key=repr)
+        kinds = sorted(self.T.result(m), key=_rich_first)
         return self.of_kinds(kinds)
 
     def of_kinds(self, kinds, depth=0):
@@ -77,9 +100,22 @@ class Gen:
                     d = dict(base)
                     d[name] = v
                     var.append(AObj("Container", d))
+            # an element that carries an OBIS code: the codes the module itself names (clock, meter type, ...) select special handling in the
+            # normaliser, so each of them is tried with every kind of the other members
+            if "obis" in members and self.literals:
+                others = [n_ for n_ in members if n_ != "obis"]
+                for lit in self.literals:
+                    d0 = dict(base)
+                    d0["obis"] = lit
+                    var.append(AObj("Container", d0))
+                    for n_ in others:
+                        for v in subs[n_]:
+                            d = dict(d0)
+                            d[n_] = v
+                            var.append(AObj("Container", d))
             return AObj("Container", dict(base)), var
         if kind[0] == "list":
-            ek = sorted(kind[1], key=repr)
+            ek = sorted(kind[1], key=_rich_first)
             b, vs = self.of_kinds(ek, depth + 1)
             if not ek:
                 return [], []
@@ -121,12 +157,14 @@ def normaliser_outcomes(M, T, mod, root: N, fn, hooks=None):
     g = Gen(T, M, mod)
     outs = []
     n_objs = 0
-    for vk in sorted(T.result(root), key=repr):
+    for vk in sorted(T.result(root), key=_rich_first):
         base, variants = g.of_kind(vk)
         for i, obj in enumerate([base] + variants):
             n_objs += 1
             A = AbsEval(M, hooks=hooks or {})
             rs, truncated = run_valuations(A, fn, [obj])
+            for cls_, line_, text_ in A.__dict__.get("may", []):
+                outs.append((f"{'base object' if i == 0 else 'variant ' + str(i)} of {mod}.{root.src or root.name or root.kind}: {text_}", ("raise", cls_)))
             for dec, r in rs:
                 if r[0] == "undecided":
                     return outs, n_objs, f"{fn.name} outside the interpreted subset on an abstract parse result ({'base' if i == 0 else 'variant ' + str(i)}): {r[1]}"
